@@ -40,7 +40,13 @@ TRUSTED = [
     "instance, logging `__import__`, canary modules, canonical texts",
 ]
 ASSUMPTIONS = [
-    "arguments and attributes are values brine can put on the wire (ints within the interpreter's digit limit)",
+    "an exception whose arguments genuinely cannot be serialized (a repr() or getattr that raises, an int beyond the "
+    "interpreter's digit limit) surfaces through Connection._send_exception's fallback: same class, the note "
+    "'<exception arguments could not be serialized>' as only argument, no attributes, the fixed text '<traceback "
+    "unavailable>' — a documented deviation from 'same arguments', modelled (boxExc / fallbackPayload), compared end to end, "
+    "and required by the oracle to keep the class and to disclose nothing",
+    "when CPython's traceback module itself fails on an exception (a SyntaxError with a malformed detail tuple) the "
+    "traceback field is the literal '<traceback unavailable>'; everything else of the exception still arrives",
     "an imported module does not raise a non-Exception BaseException while being imported",
     "custom classes do not override __new__ / metaclass / the `args` descriptor with code of their own (other than "
     "needing constructor arguments, which is modelled)",
@@ -91,6 +97,12 @@ def _compare(c, case, keys, obs, line_out, info, label):
         c.disagreements.append(dict(case=case, impl="(op line)", model="bad-op"))
         return False
     mo = ve.canon_model_line(line_out)
+    if mo.get("dump_failed") or obs.get("dump_failed"):
+        # `vinegar.dump` itself raises (direct mode): only that fact and the error class are compared
+        if mo.get("pay") != obs.get("pay") or not (mo.get("dump_failed") and obs.get("dump_failed")):
+            c.disagreements.append(dict(case=case, differs=["pay"], impl=dict(pay=str(obs.get("pay"))[:300]),
+                                        model=dict(pay=str(mo.get("pay"))[:300])))
+        return True
     if mo.get("local"):
         mo = dict(seen="local", imp="( )", init=0, out="local", pay=obs.get("pay"))
     if "NOT-MODELLED" in mo.get("out", ""):
@@ -251,6 +263,34 @@ def normal_args(args):
     return tuple(a if ve.is_val(a) else repr(a) for a in args)
 
 
+def unserializable(exc):
+    """do the exception's arguments / public attributes genuinely resist serialization: a repr() or getattr that raises, or a
+    value brine cannot put on the wire (an int beyond the interpreter's digit limit)"""
+    from rpyc.core import brine
+    vals = list(exc.args)
+    for n in dir(exc):
+        if n.startswith("_") or n == "args":
+            continue
+        try:
+            vals.append(getattr(exc, n))
+        except AttributeError:
+            continue
+        except Exception:  # noqa
+            return True
+    for v in vals:
+        if ve.is_val(v):
+            try:
+                brine.dump(v)
+            except Exception:  # noqa
+                return True
+        else:
+            try:
+                repr(v)
+            except Exception:  # noqa
+                return True
+    return False
+
+
 def clean_name(s):
     return type(s) is str and "\x00" not in s and not any(0xD800 <= ord(ch) <= 0xDFFF for ch in s)
 
@@ -266,8 +306,12 @@ def _observe_exc(spec, s, r, mode):
     res = dict(exc=exc, t=t)
     if mode == "direct":
         t, v, tb = vc.capture(exc)
-        res["tbtext"] = ve.format_tb(t, v, tb)
-        payload = brine.load(brine.dump(vinegar.dump(t, v, tb, sf[0], sf[1])))
+        res["tbtext"], res["tb_error"] = ve.format_tb(t, v, tb)
+        try:
+            payload = brine.load(brine.dump(vinegar.dump(t, v, tb, sf[0], sf[1])))
+        except Exception as ex:  # noqa
+            res.update(outcome=("sender-failed", ex), attempts=[], delta=[], init=0, real_after=None)
+            return res
         ve.reset_canaries()
         with ve.ImportWatch() as w:
             try:
@@ -288,10 +332,7 @@ def _observe_exc(spec, s, r, mode):
         cap = {}
 
         def spy(t_, v_, tb_):
-            try:
-                cap["tbtext"] = ve.format_tb(t_, v_, tb_)
-            except ve.Unrepresentable:
-                cap["unformattable"] = True
+            cap["tbtext"], cap["tb_error"] = ve.format_tb(t_, v_, tb_)
             return pair.orig_box(t_, v_, tb_)
         after = {}
 
@@ -299,9 +340,7 @@ def _observe_exc(spec, s, r, mode):
             after["real"] = getattr(sys.modules.get(m), c, None) if type(c) is str else None
             return m, c, {}
         obs = (pair.call if t in (SystemExit, KeyboardInterrupt) else pair.call_sync)(spy, at_end)
-        if cap.get("unformattable"):
-            raise ve.Unrepresentable("traceback.format_exception raises on the sender")
-        res["tbtext"] = cap.get("tbtext", "")
+        res["tbtext"], res["tb_error"] = cap.get("tbtext"), cap.get("tb_error")
         res["real_after"] = after.get("real")
         res.update(attempts=valtext.from_text(obs["imp"]), delta=obs["delta"], init=obs["init"])
         if obs["seen"] == "local":
@@ -340,6 +379,15 @@ def oracle_exc(spec, s, r, mode="direct", known=()):
     if rf[0] and any(a != m for a in o["attempts"]):
         return "the receiver imported something other than the exception's module: %r" % (list(o["attempts"]),), "C09:foreign-import"
     kind = o["outcome"][0]
+    unser = unserializable(exc)
+    if kind == "sender-failed":
+        if unser:
+            return None     # nothing can be sent of such an exception without a connection's fallback: outside
+        sig = "C09:traceback-format-failure-loses-args" if o.get("tb_error") else "C09:dump-raises"
+        if sig in known:
+            return None
+        return ("vinegar.dump / brine raised %s for %s.%s%s although its arguments can be serialized"
+                % (type(o["outcome"][1]).__name__, m, c, valtext.to_text(normal_args(exc.args))[:80])), sig
     if kind in ("local", "none"):
         return "no exception surfaced at the requester (%s)" % (o["outcome"][1:],), "C09:nothing-surfaced"
     seen = o["outcome"][1]
@@ -382,12 +430,17 @@ def oracle_exc(spec, s, r, mode="direct", known=()):
                         % (m, c, r, type(seen).__mro__[1:2])), "C09:custom-class-instantiated"
             if type(seen).__name__ != "%s.%s" % (m, c):
                 return "the generic stand-in is named %r, not %s.%s" % (type(seen).__name__, m, c), "C09:generic-name"
-    # --- arguments and data attributes
-    want = normal_args(exc.args)
-    if valtext.canon(tuple(seen.args)) != valtext.canon(want):
-        return ("args %s surfaced as %s" % (valtext.to_text(want)[:120], valtext.canon(tuple(seen.args))[:120])), \
-            "C09:args-differ" + (":StopIteration" if t is StopIteration else "")
-    for n in dir(exc):
+    # --- arguments and data attributes (an exception whose arguments cannot be serialized keeps its class only:
+    # the documented fallback of Connection._send_exception)
+    want = normal_args(exc.args) if not unser else ()
+    if not unser and valtext.canon(tuple(seen.args)) != valtext.canon(want):
+        sig = "C09:args-differ" + (":StopIteration" if t is StopIteration else "")
+        if o.get("tb_error"):
+            sig = "C09:traceback-format-failure-loses-args"
+        if sig in known:
+            return None
+        return ("args %s surfaced as %s" % (valtext.to_text(want)[:120], valtext.canon(tuple(seen.args))[:120])), sig
+    for n in dir(exc) if not unser else ():
         if n.startswith("_") or n == "args":
             continue
         try:
@@ -409,11 +462,11 @@ def oracle_exc(spec, s, r, mode="direct", known=()):
         rtb = getattr(seen, "_remote_tb", None)
         rver = getattr(seen, "_remote_version", None)
         tbtext = o["tbtext"]
-        if sf[0] and not (type(rtb) is str and tbtext and tbtext in rtb):
+        if sf[0] and tbtext is not None and not unser and not (type(rtb) is str and tbtext and tbtext in rtb):
             return "include_local_traceback is on but the remote traceback did not arrive", "C09:traceback-missing"
         if not sf[0] and type(rtb) is str and ((tbtext and tbtext in rtb) or "Traceback (most recent call last)" in rtb):
             return "include_local_traceback is off but the traceback text was disclosed", "C09:traceback-disclosed"
-        if sf[1] and rver != rpyc.version.version_string:
+        if sf[1] and not unser and rver != rpyc.version.version_string:
             return "include_local_version is on but _remote_version is %r" % (rver,), "C09:version-missing"
         if not sf[1] and rpyc.version.version_string in str(rver):
             return "include_local_version is off but the version %r was disclosed" % (rver,), "C09:version-disclosed"
@@ -464,6 +517,8 @@ BOUNDARY_SPECS = [
     {"cls": "builtins:OSError", "args": "( I2 S109 S102 )", "kwargs": {}, "attrs": {}},
     {"cls": "builtins:SystemExit", "args": "( I3 )", "kwargs": {}, "attrs": {}},
     {"cls": "builtins:ExceptionGroup", "args": "( S109 O0 )", "kwargs": {"_group": "T"}, "attrs": {}},
+    {"cls": "builtins:SyntaxError", "args": "( S109 ( S102 I1 I2 I5 ) )", "kwargs": {}, "attrs": {}},
+    {"cls": "builtins:ValueError", "args": "( O98 )", "kwargs": {}, "attrs": {}},
     {"cls": "pool:c09pool_loaded:AppError", "args": "( I1 )", "kwargs": {}, "attrs": {}},
     {"cls": "pool:c09pool_fresh:AppError", "args": "( I1 )", "kwargs": {}, "attrs": {}},
     {"cls": "dyn:c09pool_unknown:AppError", "args": "( I1 )", "kwargs": {}, "attrs": {}},
@@ -501,7 +556,7 @@ def oracle_search(ctx, corr, broken):
             for rr in RECVS:
                 yield dict(kind="payload", payload=valtext.to_text(p), r=rr, mode="direct")
         for spec in BOUNDARY_SPECS:
-            for s, rr in [("TTFF", "FFF"), ("FFFF", "TTT")]:
+            for s, rr in [("TTFF", "FFF"), ("FFFF", "TTT"), ("FTFF", "FFF"), ("TFFF", "FTF")]:
                 yield dict(kind="exc", spec=spec, s=s, r=rr, mode="e2e")
         specs, custom = vc.gen_specs(r, 3)
         allspecs = specs + custom
